@@ -214,6 +214,14 @@ def mon_c17(case_line, trace):
         return 'guard-not-reported: guard condition reached at read %d but outcome is %s' % (trip, outcome)
     if outcome == 'err:attack' and trip is None:
         return 'guard-spurious: AttackAttempt reported although no limit was exceeded (reads=%d bytes=%d)' % (len(sizes), sum(sizes))
+    # Interrupted is handed to the caller only when the transport reported WouldBlock: with a transport that never blocks the
+    # blocking entry points (accept, client) must run to completion however few bytes each write takes
+    for i, e in enumerate(evs):
+        if e == 'I':
+            prev = evs[i - 1] if i > 0 else ''
+            blocked = prev in ('R:e:wb', 'F:e:wb') or (prev.startswith('W:') and prev.endswith(':e:wb'))
+            if not blocked:
+                return 'spurious-interrupt: the handshake returned Interrupted after %r, although the transport did not report WouldBlock' % prev[:40]
     # the handshake bytes are flushed: a handshake that reports success wrote something and its last flush attempt succeeded
     if outcome == 'ok':
         fl = [e for e in evs if e.startswith('F:')]
